@@ -292,12 +292,19 @@ SPECIAL_SLOTS = [
     ('match ss:\n case {}: pass', 'cases[0].pattern', 'zz', 'PAT'), ('match ss:\n case {} | yy: pass', 'cases[0].pattern.patterns[0]', 'zz', 'PAT'), ('match ss:\n case xx | {}: pass', 'cases[0].pattern.patterns[1]', 'zz', 'PAT'),
     ('match ss:\n case {}, yy: pass', 'cases[0].pattern.patterns[0]', 'zz', 'PAT'), ('match ss:\n case {} as ww: pass', 'cases[0].pattern.pattern', 'zz', 'PAT'), ('match ss:\n case [{}, yy]: pass', 'cases[0].pattern.patterns[0]', 'zz', 'PAT'),
     ('match ss:\n case CC(kk={}): pass', 'cases[0].pattern.kwd_patterns[0]', 'zz', 'PAT'), ('match ss:\n case {} if gg: pass', 'cases[0].pattern', 'zz', 'PAT'),
+    # slots no delimiter encloses: a replacement that breaks lines keeps its parentheses (line breaks inside implicit string concatenations, behind continuations...)
+    ('xx = {}', 'value', 'zz', 'BARE'), ('return {}', 'value', 'zz', 'BARE'), ('xx = {} < yy', 'value.left', 'zz', 'BARE'), ('xx = yy < {}', 'value.comparators[0]', 'zz', 'BARE'),
+    ('assert {}', 'test', 'zz', 'BARE'), ('xx += {}', 'value', 'zz', 'BARE'), ('xx = not {}', 'value.operand', 'zz', 'BARE'), ('xx = yy + {}', 'value.right', 'zz', 'BARE'),
+    ('xx = {}, yy', 'value.elts[0]', 'zz', 'BARE'), ('xx = yy if {} else ww', 'value.test', 'zz', 'BARE'), ('xx: {} = yy', 'annotation', 'zz', 'BARE'), ('raise {} from yy', 'exc', 'zz', 'BARE'),
     ("t = f'{{ {}!r:>9 }}'", 'value.values[0].value', 'zz', 'FSTR'), ("t = f'{{ [aa, {}] }}'", 'value.values[0].value.elts[1]', 'zz', 'FSTR'), ("t = f'{{ aa or {} }}'", 'value.values[0].value.values[1]', 'zz', 'FSTR'),
 ]
 SPECIAL_REPL = {
     'PAT': ['aa\n.bb', '"aa"\n"bb"', '1+\n2j', '-\n1', '(aa\n.bb)', 'aa.bb', '(aa.bb)', '-1', 'aa |\nbb', '(aa |\nbb)', 'CC(\n)', '[aa,\n bb]', 'aa,\nbb', '{1: aa,\n **rr}', '"ss" # c\n"tt"', 'aa \\\n.bb'],
     'SOLO': ['(aa + bb)', '(aa or bb)', 'aa', '(aa)', '(aa,\n bb)', '(jj for jj in yy)', 'lambda: zz', '(lambda: zz)', '*ss', '(aa if bb else cc)', 'aa if bb else cc', '(aa +\n bb)', '(aa := bb)', '"s"\n "t"'],
     'STAR': ['*xx or yy', '*xx\n.yy', '*xx', '*(xx | yy)', '*(xx |\n yy)', '*(xx or yy)', '*(xx |  # c\n yy)', '*xx.yy', '*[xx,\n yy]', '*(xx\n .yy)', '*(xx if yy else zz)', '*(xx,\n yy)', 'xx', '(xx |\n yy)'],
+    'BARE': ["('a'\n'b' + \\\n cc)", "(f'a'\nf'{bb}' + \\\n cc)", "(b'a'\nb'b' * \\\n cc)", "('a'\n'b' + cc)", "('a' \\\n'b' + \\\n cc)", "('a'\n'b')", '(aa +\n bb)', '(aa + \\\n bb)',
+             "('a' # c\n'b')", '(aa\n.bb)', "('''a\nb''' + \\\n cc)", '(aa)', "('a'\n'b').cc", '(aa if bb else\n cc)', "('a'\n'b' \\\n 'c')", "(cc + \\\n 'a'\n'b')", "('a'\n'b' % \\\n cc)",
+             "(f'''a\n{bb}''' + \\\n cc)", "(aa \\\n + 'a'\n'b' \\\n)"],
     'GLUE': ['(pp +\n qq)', 'gg(pp,\n qq).rr', '(pp + \\\n qq)', 'pp', '(pp)', '[pp,\n qq]', '(pp\n .qq)', 'pp +\\\n qq', '(pp if qq else\n rr)', '"s"\\\n "t"'],
     'FSTR': ['(aa if bb else lambda: xx)', '(cc, lambda: xx)', '(aa if bb else\n lambda: xx)', '(cc,\n lambda: xx)', 'lambda: xx', 'aa if bb else lambda: xx', 'cc, lambda: xx', '(lambda: xx)', 'ff(lambda: xx)', '[lambda: xx]', 'aa if bb else (lambda: xx)', 'xx := 1', '(xx := 1)', 'not lambda: xx' if False else 'xx if yy else zz',
              'lambda aa=1: aa', 'cc if dd else ee if ff else lambda: xx', '{kk: lambda: xx}', 'xx or yy', 'yield xx' if False else 'xx[lambda: yy]'],
@@ -306,56 +313,101 @@ SPECIAL_REPL = {
 
 def stage_special_slots(ctx: Ctx):
     """deterministic: starred elements (whose parentheses belong to their value) in naked tuples / lists / calls / subscripts with values that break lines inside their own
-    parentheses; replacement fields of f-strings (a ':' or '!' outside delimiters ends the expression) with lambdas anywhere at the end of the replacement. After the put the
-    source must parse to the template with exactly the replacement in the hole."""
+    parentheses; replacement fields of f-strings (a ':' or '!' outside delimiters ends the expression) with lambdas anywhere at the end of the replacement; slots no delimiter
+    encloses with replacements that break lines in every way. Each also with non-ASCII text before the operand on the same line, and each followed by a SECOND replacement of
+    the same slot. After every put the source must parse to the template with exactly the replacement in the hole."""
     import fst
+
+    def stmt(tree, i):
+        return tree.body[0].body[i]
+
+    def hole_i(tree, path, i):
+        return eval('node.' + path, {'node': stmt(tree, i)})
+
+    def blank_i(tree, path, i):
+        node = stmt(tree, i)
+        parts = path.rsplit('.', 1)
+        holder = eval('node.' + parts[0], {'node': node}) if len(parts) == 2 else node
+        last = parts[-1]
+        marker = ast.Name(id='__HOLE__', ctx=ast.Load())
+        if '[' in last:
+            fld, idx = last[:-1].split('[')
+            getattr(holder, fld)[int(idx)] = marker
+        else:
+            setattr(holder, last, marker)
+        return canon(tree)
     for tmpl, path, placeholder, fam in SPECIAL_SLOTS:
-        try:
-            src0 = S.build(tmpl, placeholder)
-            ast.parse(src0)
-        except SyntaxError as e:
-            ctx.broken.append({'kind': 'harness', 'name': 'special_slots', 'detail': f'{tmpl!r}: {e}'})
-            continue
-        for repl in SPECIAL_REPL[fam]:
+        variants = [(tmpl, 0, '')]
+        if not tmpl.startswith(('for ', 'match ', 'with ', 'if ', 'while ')):
+            variants.append(("'é'; " + tmpl, 1, 'non-ascii-before|'))      # non-ASCII text before the operand on the same line: byte columns and character columns differ
+        for vtmpl, si, vname in variants:
             try:
-                if fam == 'PAT':
-                    want_child = ast.parse(f'match _:\n case (\n{repl}\n): pass').body[0].cases[0].pattern
-                else:
-                    want_child = ast.parse(f'[\n{repl}\n]', mode='eval').body.elts[0] if fam == 'STAR' else ast.parse(f'(\n{repl}\n)', mode='eval').body
-            except SyntaxError:
+                src0 = S.build(vtmpl, placeholder)
+                ast.parse(src0)
+            except SyntaxError as e:
+                ctx.broken.append({'kind': 'harness', 'name': 'special_slots', 'detail': f'{vtmpl!r}: {e}'})
+                continue
+            for repl in SPECIAL_REPL[fam]:
                 try:
-                    want_child = ast.parse(f'_(\n{repl}\n)', mode='eval').body.args[0]     # arglike-only forms such as `*a or b`
-                except (SyntaxError, IndexError):
-                    continue
-            for form in ('src', 'fst', 'ast'):
-                root = fst.FST(src0, 'exec')
-                tgt = S.hole(root.a, path)
-                code = repl
-                if form != 'src':
+                    if fam == 'PAT':
+                        want_child = ast.parse(f'match _:\n case (\n{repl}\n): pass').body[0].cases[0].pattern
+                    else:
+                        want_child = ast.parse(f'[\n{repl}\n]', mode='eval').body.elts[0] if fam == 'STAR' else ast.parse(f'(\n{repl}\n)', mode='eval').body
+                except SyntaxError:
                     try:
-                        cf = fst.FST(repl, 'pattern' if fam == 'PAT' else 'expr_arglike')
-                    except Exception:
+                        want_child = ast.parse(f'_(\n{repl}\n)', mode='eval').body.args[0]     # arglike-only forms such as `*a or b`
+                    except (SyntaxError, IndexError):
                         continue
-                    code = cf if form == 'fst' else cf.a
-                desc = {'template': tmpl, 'path': path, 'replacement': repl, 'form': form, 'src': src0}
-                try:
-                    tgt.f.replace(code)
-                except Exception as e:
-                    ctx.dist['special:refused'] = ctx.dist.get('special:refused', 0) + 1
-                    if root.src != src0:
-                        ctx.violation('group|special|refusal-dirty', 'a refused replacement changed the source', {**desc, 'error': repr(e)[:200], 'result_src': root.src})
-                    continue
-                ctx.tick(('special', tmpl, repl, form), 'put:special-slot')
-                try:
-                    re_ = ast.parse(root.src)
-                    okc = canon(S.hole(re_, path)) == canon(want_child)
-                    live_ok = canon(root.a) == canon(re_)
-                    rest_ok = blank(re_, path) == blank(ast.parse(src0), path)
-                except (SyntaxError, IndexError, AttributeError, TypeError):
-                    okc = rest_ok = live_ok = False
-                if not (okc and rest_ok and live_ok):
-                    ctx.violation(f'group|special|{fam}|{tmpl}', 'after replacing the operand the source does not parse to the parent with exactly that replacement in that position',
-                                  {**desc, 'result_src': root.src, 'child_at_slot_ok': okc, 'rest_unchanged': rest_ok, 'live_tree_equals_reparse': live_ok})
+                for form in ('src', 'fst', 'ast'):
+                    root = fst.FST(src0, 'exec')
+                    tgt = hole_i(root.a, path, si)
+                    code = repl
+                    if form != 'src':
+                        try:
+                            cf = fst.FST(repl, 'pattern' if fam == 'PAT' else 'expr_arglike')
+                        except Exception:
+                            continue
+                        code = cf if form == 'fst' else cf.a
+                    desc = {'template': vtmpl, 'path': path, 'replacement': repl, 'form': form, 'src': src0}
+                    try:
+                        tgt.f.replace(code)
+                    except Exception as e:
+                        ctx.dist['special:refused'] = ctx.dist.get('special:refused', 0) + 1
+                        if root.src != src0:
+                            ctx.violation('group|special|refusal-dirty', 'a refused replacement changed the source', {**desc, 'error': repr(e)[:200], 'result_src': root.src})
+                        continue
+                    ctx.tick(('special', vtmpl, repl, form), 'put:special-slot' + (':non-ascii-before' if vname else ''))
+                    try:
+                        re_ = ast.parse(root.src)
+                        okc = canon(hole_i(re_, path, si)) == canon(want_child)
+                        live_ok = canon(root.a) == canon(re_)
+                        rest_ok = blank_i(re_, path, si) == blank_i(ast.parse(src0), path, si)
+                    except (SyntaxError, IndexError, AttributeError, TypeError):
+                        okc = rest_ok = live_ok = False
+                    if not (okc and rest_ok and live_ok):
+                        ctx.violation(f'group|special|{vname}{fam}|{tmpl}', 'after replacing the operand the source does not parse to the parent with exactly that replacement in that position',
+                                      {**desc, 'result_src': root.src, 'child_at_slot_ok': okc, 'rest_unchanged': rest_ok, 'live_tree_equals_reparse': live_ok})
+                        continue
+                    # second step: the operand that was just put is replaced again (positions recorded by the first put are used by the second)
+                    mid = root.src
+                    second = 'qq.rr' if fam != 'STAR' else '*qq.rr'
+                    try:
+                        hole_i(root.a, path, si).f.replace(second)
+                    except Exception as e:
+                        ctx.violation(f'group|special|second-put-raise|{vname}{fam}', 'replacing the operand that was just put raised', {**desc, 'after_first_put': mid, 'second': second, 'error': repr(e)[:200]})
+                        continue
+                    ctx.tick(('special2', vtmpl, repl, form), 'put:special-slot:second-put')
+                    try:
+                        re_ = ast.parse(root.src)
+                        want2 = ast.parse(f'_({second})', mode='eval').body.args[0] if fam != 'PAT' else ast.parse(f'match _:\n case {second}: pass').body[0].cases[0].pattern
+                        okc = canon(hole_i(re_, path, si)) == canon(want2)
+                        live_ok = canon(root.a) == canon(re_)
+                        rest_ok = blank_i(re_, path, si) == blank_i(ast.parse(src0), path, si)
+                    except (SyntaxError, IndexError, AttributeError, TypeError):
+                        okc = rest_ok = live_ok = False
+                    if not (okc and rest_ok and live_ok):
+                        ctx.violation(f'group|special|second-put|{vname}{fam}|{tmpl}', 'after replacing the operand a second time the source does not parse to the parent with exactly that replacement',
+                                      {**desc, 'after_first_put': mid, 'second': second, 'result_src': root.src, 'child_at_slot_ok': okc, 'rest_unchanged': rest_ok, 'live_tree_equals_reparse': live_ok})
 
 
 def run(ctx: Ctx):
